@@ -320,4 +320,9 @@ def run_shard(col, cfg):
         lines = G.render(case["tree"])
         col.record(case, info["nontrivial"], classes=classes, violations=vs,
                    sample={"method": G.text_of(lines), "traj": case["traj"], "ops": case["ops"]})
-    hyp_run(cases(cfg), body, max(1, cfg["examples"] // col.nshards), shard_seed(col.seed, col.shard), col)
+    # batches with derived seeds: after the budget has run out Hypothesis would still generate (not run) every remaining
+    # example of a call, so a shard stops between batches instead
+    n, batch, b = max(1, cfg["examples"] // col.nshards), 200, 0
+    while b * batch < n and not col.expired():
+        hyp_run(cases(cfg), body, min(batch, n - b * batch), shard_seed(col.seed, col.shard) * 1000 + b, col)
+        b += 1
